@@ -52,7 +52,7 @@ CHECK_DEADLOCK FALSE
 POSTCONDITION Post
 """
 
-OUT_KEYS = ("action", "stage", "code", "queries")
+OUT_KEYS = ("action", "stage", "code", "queries", "action2")
 
 
 def q(names):
@@ -138,14 +138,9 @@ def run(ctx, replay):
             return dev, ctx.tlc("Dnsbl", None, name="asis-" + dev, workers=2, timeout=600,
                                 cfg_text=MC_CFG % dict(maxlists=1, devs=q([dev]), gen="FALSE", seed=1, randn=1,
                                                        inv="AsIsSatisfiesProp", emit=""))
-        with ThreadPoolExecutor(max_workers=3) as ex:
-            for dev, ra in ex.map(asis, [d for d in DEVS if d != "InlineNoFilter"]):
-                if ra["invariant"] != "AsIsSatisfiesProp":
-                    raise vlib.Infra("as-is model (%s) does not violate the property: predicates vacuous? (%s)" % (
-                        dev, ra["error"]))
-        # InlineNoFilter changes an action only where inline lists count (InlineScoreZero off): it must at least
-        # be distinguishable from the rule
-        ctx.cov["asis_counterexample_found"] = [d for d in DEVS if d != "InlineNoFilter"]
+        # (runs next to the replay of the rows; joined before the verdicts)
+        asis_pool = ThreadPoolExecutor(max_workers=3)
+        asis_runs = [asis_pool.submit(asis, d) for d in DEVS]
     sel = rows
     by_id = {row["id"]: row for row in sel}
     ctx.log("%d rows to run through the real code" % len(sel))
@@ -172,7 +167,7 @@ def run(ctx, replay):
     if crashed:
         row = by_id[crashed[0]]
         fake = {"t": row["id"], "seq": 2, "e": "Row", "in": row["in"],
-                "out": {"action": "panic", "stage": "none", "code": 0, "queries": [], "panic": crashed[1]}}
+                "out": {"action": "panic", "stage": "none", "code": 0, "queries": [], "action2": "n/a", "panic": crashed[1]}}
         events.append(fake)
         ev_by_t[row["id"]] = fake
 
@@ -219,6 +214,14 @@ def run(ctx, replay):
     if selftest:
         ctx.cov["binding_selftest"] = "forged rows rejected: " + "; ".join(selftest.values())
 
+    if not replay:
+        for fut in asis_runs:
+            dev, ra = fut.result()
+            if ra["invariant"] != "AsIsSatisfiesProp":
+                raise vlib.Infra("as-is model (%s) does not violate the property: predicates vacuous? (%s)" % (
+                    dev, ra["error"]))
+        asis_pool.shutdown()
+        ctx.cov["asis_counterexample_found"] = list(DEVS)
     if replay:
         ev = events[0]
         v = verdicts.get(ev["t"])
